@@ -282,7 +282,7 @@ fn forks(tier: Tier, shard: usize, n: usize) -> Report {
 /// {compact, reopen, the next main block, a three-block fork from inside the horizon that reorgs the
 /// head out} - the unspent set must stay the reference replay of the winning chain and full
 /// validation must pass.
-fn compaction(tier: Tier, shard: usize, n: usize) -> Report {
+pub fn compaction(tier: Tier, shard: usize, n: usize) -> Report {
 	uni::init_thread();
 	let mut rep = Report::new();
 	let sc = uni::Scratch::new("c02c");
